@@ -2,6 +2,7 @@
 MUST-victim-counted, MUST-reject-touches-nothing, MUST-admit-or-remove, CMP-oversize, CMP-capacity,
 CMP-evict, SCAN-from-front, MUST-recency, MUST-evict."""
 from .core import RuleResult, CheckFailure
+from .roles import ev_is, wrapper_kind
 from .roles import CHAN_RECV
 from .roles import named
 from .kernel import norm
@@ -216,11 +217,11 @@ def rule_flow_admit_sums(ctx):
             if any(s_ != 1 for s_, a in watoms):
                 bad.append('negative weight contribution')
             # victim list
-            vic_pushes = [e for e in pushes if any(isinstance(x, tuple) and x and x[0] == 'call' and str(x[1]).endswith(('peek_front_ptr', 'next_node_ptr')) for a in e[2] for x in subterms(a))]
+            vic_pushes = [e for e in pushes if any(isinstance(x, tuple) and x and x[0] == 'call' and (x[1] in R.front or x[1] in R.succ) for a in e[2] for x in subterms(a))]
             if kind == 'unsync' and len(vic_pushes) != len(hits):
                 bad.append('%d victim(s) counted but %d recorded in the victim list' % (len(hits), len(vic_pushes)))
             if kind == 'sync':
-                nodes = [e for e in p.events if e[0] == 'call' and str(e[1]).endswith('next_node_ptr')]
+                nodes = [e for e in p.events if e[0] == 'call' and e[1] in R.succ]
                 if len(vic_pushes) != len(nodes):
                     bad.append('%d node(s) scanned but %d recorded as victim or skipped' % (len(nodes), len(vic_pushes)))
             r.instance(function=nid, verdict=row['verdict'], victims_in_map=len(hits), freq_terms=len(fatoms), weight_terms=len(watoms), ok=not bad)
@@ -302,7 +303,7 @@ def rule_admission_outcomes(ctx):
                                   where=ctx.where(nid), expected='policy_weight > max_capacity (strict)')
                         oversize = v
             unbounded = any(isinstance(t, tuple) and t[0] == 'discr' and has_field(t[1], ('max_capacity',)) and v == 0 for t, v in lits)
-            pushes = [e for e in p.events if e[0] == 'call' and str(e[1]).endswith('push_back_ao')]
+            pushes = [e for e in p.events if ev_is(ctx, e, 'push', 'ao')]
             removals = [e for e in p.events if e[0] == 'call' and e[1] in remove_set]
             admit_calls = [e for e in p.events if e[0] == 'call' and e[1] in [a for a, _ in admits(ctx)]]
             cand_removed = [e for e in removals if len(e[2]) > 1 and any(isinstance(x, tuple) and x and x[0] == 'param' for x in subterms(e[2][1])) and
@@ -415,7 +416,7 @@ def rule_cmp_evict(ctx):
                 if e[0] == 'call' and e[1] in (HASHMAP_REMOVE | DASHMAP_REMOVE):
                     seen_rm += 1
                     keyarg = e[2][1]
-                    front = any(isinstance(x, tuple) and x and x[0] == 'call' and str(x[1]).endswith('Deque::peek_front') for x in subterms(keyarg))
+                    front = any(isinstance(x, tuple) and x and x[0] == 'call' and x[1] in R.front for x in subterms(keyarg))
                     probation = 'probation' in fmt(keyarg) or (kind == 'sync' and 'probation' in fmt(keyarg))
                     r.instance(function=nid, removes=fmt(keyarg)[:70], from_front=front)
                     if not front:
@@ -494,11 +495,8 @@ def rule_must_recency(ctx):
     def moves(e, which):
         if e[0] != 'call' or e[1] not in prog.bodies:
             return False
-        reach = prog.reachable_from([e[1]])
-        if not (reach & R.move):
-            return False
-        last = e[1].split('::')[-1]
-        return (which in last)
+        wk = wrapper_kind(ctx, e[1])
+        return bool(wk) and wk[0] == 'move' and wk[1] == which
     # unsync get: hit paths
     from .rules_live import _lookup_analysis
     la = _lookup_analysis(ctx, 'unsync::cache::Cache::get', 'unsync', 'option')
@@ -577,7 +575,7 @@ def rule_must_recency(ctx):
                 hit_idx = [v_['name'] for v_ in prog.adts['common::concurrent::ReadOp']['variants']].index('Hit')
                 nhits = sum(1 for t, v in ok_tags if v == hit_idx)
                 ninc = sum(1 for e in p.events if e[0] == 'call' and e[1] in R.sketch_increment)
-                nadv = sum(1 for e in p.events if e[0] == 'call' and e[1] in prog.bodies and (prog.reachable_from([e[1]]) & ts_writers) and e[1] not in R.move and 'move_to_back' not in e[1])
+                nadv = sum(1 for e in p.events if e[0] == 'call' and e[1] in prog.bodies and (prog.reachable_from([e[1]]) & ts_writers) and e[1] not in R.move and not ev_is(ctx, e, 'move'))
                 if not nops:
                     continue
                 n += 1
